@@ -35,9 +35,9 @@ Section Frag.
     end
   with fok_apat (oc : cls) (p : path) (a : nat) (c : apat) {struct c} : bool :=
     match c with
-    | PLit v => is_some (f_type C oc a) && (f_iter C oc a || negb (is_coll v))
+    | PLit v => is_some (f_type C oc a) && (f_iter C oc a || negb (is_coll v)) && negb (f_bcoll C oc a)
     | PMatch q => fok_pat oc p a q
-    | PAny v => is_some (f_type C oc a) && is_coll v
+    | PAny v => is_some (f_type C oc a) && is_coll v && negb (f_bcoll C oc a)
     | PAll v => is_some (f_type C oc a) && f_iter C oc a && match v with VLO _ => true | _ => false end
     | PVar _ => false        (* a let-variable as value: finding C11-f (C11_refuted_letvalue) *)
     | PSel c' => match c' with PMatch _ | PAny _ | PAll _ => fok_apat oc p a c' | _ => false end
@@ -97,7 +97,7 @@ Definition typed (C : cmodel) (objcls : cls -> bool) (M : mworld) : Prop :=
     then exists xs, attr (mw M) o a = VLO xs /\ forall x, In x xs -> sub C (otype M x) d = true
     else if objcls d
          then exists o', attr (mw M) o a = VO o' /\ sub C (otype M o') d = true
-         else is_coll (attr (mw M) o a) = false.
+         else f_bcoll C oc a = true \/ is_coll (attr (mw M) o a) = false.
 
 (* ------------------------------------------------------------------ concrete cases (record in MatchSpecShow.v) *)
 Definition nmemb' := nmemb.
@@ -111,7 +111,8 @@ Definition case_cmodel (c : mcase) : cmodel :=
   {| sub := pair_mem (c_sub c);
      f_iter := fun oc a => match find_field (c_fields c) oc a with Some (it, _) => it | None => false end;
      f_type := fun oc a => match find_field (c_fields c) oc a with Some (_, d) => Some d | None => None end;
-     f_opt := pair_mem (c_opt c) |}.
+     f_opt := pair_mem (c_opt c);
+     f_bcoll := pair_mem (c_bcoll c) |}.
 Definition case_objcls (c : mcase) : cls -> bool := fun d => nmemb d (c_objcls c).
 
 (* boolean versions of the hypotheses over the finite data of a case *)
@@ -131,7 +132,7 @@ Definition typed_b (c : mcase) : bool :=
           | VLO xs => it && forallb (fun x => sub Cm (otype M x) d) xs
           | VO o' => negb it && case_objcls c d && sub Cm (otype M o') d
           | VI _ => negb it && negb (case_objcls c d)
-          | VLI _ => false
+          | VLI _ => negb it && negb (case_objcls c d) && pair_mem (c_bcoll c) oc a
           end
         else true
       end) (c_fields c)) (c_types c).
@@ -141,7 +142,8 @@ Fixpoint nodup_b (l : list Z) : bool :=
 (* the outcome of the model: the set of identities returned, or [-1; 940] for TypeError (940 = sum of the character
    codes of "TypeError", the harness's encoding of an exception) *)
 Definition model_out (c : mcase) : sx :=
-  if run_araises (case_cmodel c) (case_world c) (c_T c) (c_pat c) (c_dom c) then SL [SZ (-1); SZ 1470]   (* AttributeError *)
+  if build_raises (case_cmodel c) (c_T c) (c_pat c) then SL [SZ (-1); SZ 2129]     (* NoneWrappedFieldError *)
+  else if run_araises (case_cmodel c) (case_world c) (c_T c) (c_pat c) (c_dom c) then SL [SZ (-1); SZ 1470]   (* AttributeError *)
   else if run_raises (case_cmodel c) (case_world c) (c_T c) (c_pat c) (c_dom c) then SL [SZ (-1); SZ 940]
   else zset (run (case_cmodel c) (case_world c) (c_T c) (c_pat c) (c_dom c)).
 (* objects that are not listed have class 0, which must not be related to any class *)
@@ -157,7 +159,8 @@ Definition class0_b (c : mcase) : bool := forallb (fun p : nat * nat => negb (Na
 Definition in_F (c : mcase) : bool :=
   F11 (case_cmodel c) (case_objcls c) (c_T c) (c_pat c) && sub_trans_b c && typed_b c && class0_b c && nonone_b c.
 Definition model_rows_out (c : mcase) : sx :=
-  if run_araises (case_cmodel c) (case_world c) (c_T c) (c_pat c) (c_dom c) then SL [SZ (-1); SZ 1470]
+  if build_raises (case_cmodel c) (c_T c) (c_pat c) then SL [SZ (-1); SZ 2129]
+  else if run_araises (case_cmodel c) (case_world c) (c_T c) (c_pat c) (c_dom c) then SL [SZ (-1); SZ 1470]
   else if run_raises (case_cmodel c) (case_world c) (c_T c) (c_pat c) (c_dom c) then SL [SZ (-1); SZ 940]
   else rows_set (run_rows (case_cmodel c) (case_world c) (c_rootsel c) (c_T c) (c_pat c) (c_dom c)).
 Definition lax_out (c : mcase) : sx := zset (lax_run (case_cmodel c) (case_world c) (c_T c) (c_pat c) (c_dom c)).
